@@ -27,6 +27,7 @@ const modPath = "github.com/textwire/textwire/v2"
 // Model is the type-checked, SSA-lowered program plus the facts extracted
 // from it. It is rebuilt from /repo's working tree on every run.
 type Model struct {
+	cePred                map[*ssa.Function]bool
 	ternDone, ternDecided bool
 	ternBad, ternWhy      string
 	resRange              map[any][2]bool // resultRange memo
